@@ -1,4 +1,4 @@
 import MpfVerif.DriverLoop
-import MpfVerif.Model.Show
-/-! Driver of the C17 model (running show). -/
-def main : IO UInt32 := MpfVerif.runDriver MpfVerif.Show.driverStep MpfVerif.Show.init
+import MpfVerif.Model.ShowKey
+/-! Driver of the C17 model (a show-player key with its running-show instances). -/
+def main : IO UInt32 := MpfVerif.runDriver MpfVerif.ShowKey.driverStep MpfVerif.ShowKey.init
